@@ -33,6 +33,13 @@ TOPO_A = TOPO.but(invs=[], sure=[(1, 'VCPU'), (3, 'VCPU')], traits=[])
 TOPO_M = TOPO.but(invs=[(2, 'VCPU'), (3, 'VCPU')], sure=[(1, 'VCPU')],
                   traits=[(2, T1), (3, T1)], aggs=[(2, 1), (3, 1), (1, 1)])
 
+# for generated combinations: fewer optional bits (8), every filter still has
+# providers on both sides
+TOPO_C = TOPO.but(invs=[(2, 'VCPU'), (3, 'VCPU')],
+                  sure=[(1, 'VCPU'), (4, 'VCPU')],
+                  traits=[(2, T1), (3, T1), (3, T2)], sure_traits=[(1, T1)],
+                  aggs=[(2, 1), (3, 1), (3, 2)], sure_aggs=[(1, 1)])
+
 UNKNOWN_UUID = 'eeeeeeee-1111-1111-1111-111111111111'
 
 
@@ -105,9 +112,53 @@ def matches(cw, f, p, amounts):
     return And(*conds)
 
 
+DIMS = dict(
+    name=[dict(name='p2'), dict(name='nope')],
+    uuid=[dict(uuid=U(3)), dict(uuid=UNKNOWN_UUID)],
+    in_tree=[dict(in_tree=U(2)), dict(in_tree=U(3))],
+    member_of=[dict(mem=[[1]]), dict(mem=[[1, 2]]), dict(mem=[[1], [2]]),
+               dict(fmem=[1]), dict(mem=[[1]], fmem=[2]), dict(mem=[[9]])],
+    required=[dict(req=[[T1]]), dict(req=[[T1, T2]]), dict(forb=[T1]),
+              dict(req=[[T1]], forb=[T2])],
+    resources=[dict(res={'VCPU': None})],
+)
+
+
+def combinations(mode):
+    """filter combinations: every variant of every 2 / 3 / all 6 of the six
+    filters together ('pairs', 'triples', 'six'); 'all' = the full product
+    (1889 combinations, does not finish within the budget: not used)"""
+    import itertools
+    names = sorted(DIMS)
+    out = []
+    if mode in ('pairs', 'triples', 'six'):
+        k = dict(pairs=2, triples=3, six=6)[mode]
+        for dims in itertools.combinations(names, k):
+            for choice in itertools.product(*[DIMS[n] for n in dims]):
+                kw = {}
+                for c in choice:
+                    kw.update(c)
+                out.append(kw)
+    else:
+        for choice in itertools.product(*[[None] + DIMS[n] for n in names]):
+            kw = {}
+            for c in choice:
+                if c:
+                    kw.update(c)
+            if kw:
+                out.append(kw)
+    return out
+
+
 def make_family(fname, topo, f, usage=False):
+    combos = f if isinstance(f, list) else None
+
     def path(ctx):
         app.setup()
+        f_ = F(**combos[symex.choose(len(combos))]) if combos else f
+        return path_(ctx, f_)
+
+    def path_(ctx, f):
         with cands.CW(ctx, topo, usage=usage, naggs=3) as cw:
             q = cands.Query({'': cands.Group(f.res)})
             amounts = cands.amount_terms(ctx, q)
@@ -138,7 +189,8 @@ def make_family(fname, topo, f, usage=False):
                   bounds=dict(topology=topo.parents,
                               optional_inventories=topo.invs,
                               optional_traits=topo.traits,
-                              optional_aggregates=topo.aggs, filter=fname))
+                              optional_aggregates=topo.aggs, filter=fname,
+                              combinations=len(combos) if combos else 1))
 
 
 def families(tier):
@@ -186,7 +238,14 @@ def families(tier):
         ('resources+usage', I, F(res={'VCPU': None}), True),
         ('resources-2+usage', I, F(res={'VCPU': None, 'DISK_GB': 1}), True),
     ]
+    # combinations of filters, generated: every pair of the six filters in
+    # every variant (quick); every triple and all six together (thorough).
+    # Combinations of exactly 4 and 5 filters (1200 of them) are outside
+    # the claim.
+    fams.append(('combinations-pairs', TOPO, combinations('pairs')))
     if tier == 'thorough':
+        fams.append(('combinations-triples', TOPO_C, combinations('triples')))
+        fams.append(('combinations-six', TOPO_C, combinations('six')))
         fams += [
             ('mixed+usage', M, F(in_tree=U(1), mem=[[1]], req=[[T1]],
                                  res={'VCPU': None}), True),
